@@ -49,3 +49,8 @@ claim('C05',
       note="Trusted: harness/refs/sampling.py (numpy leggauss, math.comb, lgamma). One shared grid in all dimensions (the semi-analytic path requires it). Open finding C05-mixed-zero-F is excluded by construction and re-probed on every run.",
       technique="property-based differential testing (Hypothesis) against independent quadrature / convolution oracles",
       design_ref="DESIGN.md 3/C05")
+claim('C06',
+      text="All 6 constructors and all 14 in-place pulse functions are compared entry by entry with an explicit-loop deposition oracle on generated densities, grids and simplex vectors (interior, faces, vertices, sum exactly one, rational proportions landing on grid points); integrating the new / destination population out must return the other populations' joint density; proportion 0 is the identity; pulses return the modified input; sums above one (all functions, incl. 2-D) must raise; remove_pop / filter_pops / reorder_pops against explicit marginals and index permutation.",
+      note="Trusted: harness/refs/admix.py. Tolerance 1e-10 + 40*eps*(max w/min w)/min dx: conditioning of the interpolation fraction. A vector is inside the simplex when the exact rational sum of its float entries is <= 1. One shared grid (as the library's own models use).",
+      technique="property-based differential testing (Hypothesis) against an explicit-loop deposition oracle plus conservation invariants",
+      design_ref="DESIGN.md 3/C06")
